@@ -579,6 +579,10 @@ def main(argv):
                     elif r["name"] == "cli_contract":
                         cand = bf["candidate"]
                         clause = "command-line contract: %s" % "; ".join(bf["problems"])[:300]
+                    elif r["name"] == "length_budget":
+                        cand = bf["candidate"]
+                        # (no sizes, exit codes or times in the clause: the obligation id must not depend on the machine)
+                        clause = "an input within 64 KiB and without nesting is not answered: %s: the process aborts (stack overflow) or exceeds the budget" % bf["shape"]
                     elif r["name"] == "nesting_budget":
                         cand = bf["candidate"]
                         clause = "no answer within the time budget / abnormal exit: %s" % "; ".join(bf["problems"])[:300]
@@ -604,13 +608,18 @@ def main(argv):
                         cand = {"for": "bounded", "kind": "bounded_pair", "name": "%s, %s" % (bf["program"], bf["transformation"]),
                                 "original_text": bf["original_text"], "transformed_text": bf["input"], "fold_case": bf["fold_case"]}
                         clause = "%s under the transformation `%s` no longer parses to the same library / gets another verdict" % (bf["program"], bf["transformation"])
-                    f = {"obligation": "bounded/%s/%s" % (r["name"], hashlib.sha256(clause.encode()).hexdigest()[:8]), "kind": "bounded-stand-in", "item": None, "src": {"tokens_tile": "parser/src/token.rs (logos) + parser/src/lexer.rs", "lsp_tokens_history": "plc2x/src/lsp.rs + lsp_project.rs (server loop, lsp_server crate)", "lsp_history": "plc2x/src/lsp.rs + lsp_project.rs + project.rs (server loop, lsp_server crate)", "cli_contract": "plc2x/src/cli.rs + main.rs (clap, codespan)", "lsp_interleavings": "plc2x/src/lsp.rs (server loop, lsp_server crate)", "encodings_bytes": "plc2x/src/source.rs (encoding_rs) + lexer", "graph_cycles": "analyzer/src/xform_toposort_declarations.rs (petgraph toposort)", "nesting_budget": "parser/src/parser.rs (peg grammar) and the stages after it"}.get(r["name"], "parser/src/parser.rs (peg grammar)"),
+                    f = {"obligation": "bounded/%s/%s" % (r["name"], hashlib.sha256(clause.encode()).hexdigest()[:8]), "kind": "bounded-stand-in", "item": None, "src": {"tokens_tile": "parser/src/token.rs (logos) + parser/src/lexer.rs", "lsp_tokens_history": "plc2x/src/lsp.rs + lsp_project.rs (server loop, lsp_server crate)", "lsp_history": "plc2x/src/lsp.rs + lsp_project.rs + project.rs (server loop, lsp_server crate)", "cli_contract": "plc2x/src/cli.rs + main.rs (clap, codespan)", "lsp_interleavings": "plc2x/src/lsp.rs (server loop, lsp_server crate)", "encodings_bytes": "plc2x/src/source.rs (encoding_rs) + lexer", "graph_cycles": "analyzer/src/xform_toposort_declarations.rs (petgraph toposort)", "nesting_budget": "parser/src/parser.rs (peg grammar) and the stages after it", "length_budget": "parser/src/parser.rs (peg grammar: recursive descent over left-nested chains) and the recursive traversals after it"}.get(r["name"], "parser/src/parser.rs (peg grammar)"),
                          "clause": clause, "unit": "bounded", "message": "bounded stand-in (%s) failed on the real binary" % r["name"],
                          "witness": {"candidate": cand, "observation": {k: v for k, v in bf.items() if k not in ("input", "original_text", "steps", "candidate")}, "how": "ironplcc built from /repo working tree"}, "replay": rp}
-                    json.dump({"property": pid, "obligation": f["obligation"], "kind": f["kind"], "function": {"tokens_tile": "TokenType::lexer (generated by derive(Logos)) + tokenize", "lsp_tokens_history": "ironplcc lsp (whole server) over an edit history", "lsp_history": "ironplcc lsp (whole server) over an edit history", "cli_contract": "ironplcc check / echo / tokenize (whole program)", "lsp_interleavings": "ironplcc lsp (whole server) over a message sequence", "encodings_bytes": "ironplcc check / tokenize on stored bytes", "graph_cycles": "ironplcc check (declaration graph + petgraph::algo::toposort)", "nesting_budget": "ironplcc check / echo (whole program)"}.get(r["name"], "plc_parser (generated by peg::parser!)"), "source": f["src"],
+                    json.dump({"property": pid, "obligation": f["obligation"], "kind": f["kind"], "function": {"tokens_tile": "TokenType::lexer (generated by derive(Logos)) + tokenize", "lsp_tokens_history": "ironplcc lsp (whole server) over an edit history", "lsp_history": "ironplcc lsp (whole server) over an edit history", "cli_contract": "ironplcc check / echo / tokenize (whole program)", "lsp_interleavings": "ironplcc lsp (whole server) over a message sequence", "encodings_bytes": "ironplcc check / tokenize on stored bytes", "graph_cycles": "ironplcc check (declaration graph + petgraph::algo::toposort)", "nesting_budget": "ironplcc check / echo (whole program)", "length_budget": "ironplcc check / echo (whole program)"}.get(r["name"], "plc_parser (generated by peg::parser!)"), "source": f["src"],
                                "clause": clause, "verifier": "bounded check of the real binary (tools/bounded.py)", "verifier_message": f["message"], "verifier_output": "",
                                "witness": f["witness"], "note": "replay with ./check %s --replay %s" % (pid, rp)}, open(rp, "w"), indent=1)
-                    real_violations.append(f)
+                    if f["obligation"] in known_ids:
+                        # a genuine defect recorded as an open known finding: reported as such, not as a violation
+                        knownhits.append(dict(f, bounded=True))
+                        bounded_results[-1]["open_known_findings"] = bounded_results[-1].get("open_known_findings", 0) + 1
+                    else:
+                        real_violations.append(f)
 
     # thorough tier: every attached concrete input whose oracle comes from the property itself (verdicts, exit status / OK /
     # diagnostics agreement, LSP == check, same result in every encoding, cycle <=> P0010, protocol discipline) is also run
@@ -660,7 +669,7 @@ def main(argv):
 
     # Obligations listed as OPEN known findings are not part of what this run claims to discharge: they are reported
     # on their own (KNOWN-FINDING lines, coverage.open_known_findings) and never counted as discharged.
-    n_known = len({f["obligation"] for f in knownhits})
+    n_known = len({f["obligation"] for f in knownhits if not f.get("bounded")})
     n_obl_total = n_obl
     n_obl = max(0, n_obl - n_known)
     failed_obl = len({f["obligation"] for f in real_violations})
@@ -722,7 +731,7 @@ def main(argv):
             print("UNDECIDED: " + u)
         return 2
     print("%s: %d of %d obligations over %d functions in %d units discharged by verus/z3 in %.1fs%s" % (
-        pid, discharged, n_obl, n_items, len(recs), wall, (" (+%d failing obligation(s) recorded as open known finding)" % n_known) if knownhits else ""))
+        pid, discharged, n_obl, n_items, len(recs), wall, (" (+%d failing obligation(s) recorded as open known finding)" % len({f["obligation"] for f in knownhits})) if knownhits else ""))
     return 0
 
 
